@@ -98,7 +98,7 @@ class Link:
             nd = 1 if (rng.random() < 0.25 and not self.stave_level) else 0
             cur.append(itsgen.tdh(trigger_type=ttype, internal=internal, no_data=nd, continuation=0, bc=bc, orbit=self.orbit))
             if not nd:
-                data = self.frame_words(rng.randrange(256))
+                data = self.frame_words(rng.choice([0, rng.randrange(256), rng.randrange(256), 255]))
                 if len(data) > 3 and rng.random() < 0.35:
                     k = rng.randrange(1, len(data))
                     cur += data[:k]
@@ -136,7 +136,7 @@ def ob_lane(idb):
     return 21 + idb % 0x58
 
 
-def conforming(rng, nlinks=None, nhbf=None, stave_level=False, fmt=None):
+def conforming(rng, nlinks=None, nhbf=None, stave_level=False, fmt=None, version=7):
     """-> (packets [(rdh, payload)] merged in a random interleaving, per-link lists)"""
     nlinks = nlinks or rng.choice([1, 1, 2, 3])
     fmt = fmt if fmt is not None else rng.choice([0, 2])
@@ -148,7 +148,7 @@ def conforming(rng, nlinks=None, nhbf=None, stave_level=False, fmt=None):
             if (layer, stave) not in used and lid not in [l.link for l in links]:
                 used.add((layer, stave))
                 break
-        links.append(Link(rng, lid, layer, stave, fmt=fmt, version=7, stave_level=stave_level))
+        links.append(Link(rng, lid, layer, stave, fmt=fmt, version=version, stave_level=stave_level))
     per = []
     for l in links:
         pk = []
